@@ -129,7 +129,7 @@ pub fn check(case: &Case) -> Verdict {
             let g2 = (t.from_symbol)(symbol);
             // a lookup depends on its argument only
             let h = crate::hist::mix(&[crate::hist::mix_str(symbol), *ty as u64]);
-            if h % 4 == 0 {
+            if h % 16 == 0 {
                 if let Some(msg) = crate::hist::independent(h, &|| format!("{:?} / {:?}", (t.unit_from_symbol)(symbol), (t.from_symbol)(symbol))) {
                     fail!("{}: lookup of symbol {:?} {}", m.row.name, symbol, msg);
                 }
@@ -159,7 +159,7 @@ pub fn check(case: &Case) -> Verdict {
             let g1 = (rv.unit_from_scale)(s);
             let g2 = (rv.from_scale)(s);
             let h = crate::hist::mix(&[crate::hist::mix_str(scale), *ty as u64]);
-            if h % 4 == 0 {
+            if h % 16 == 0 {
                 if let Some(msg) = crate::hist::independent(h, &|| format!("{:?} / {:?}", (rv.unit_from_scale)(s), (rv.from_scale)(s))) {
                     fail!("{}: lookup of scale {} {}", m.row.name, amt::show(s), msg);
                 }
